@@ -134,9 +134,14 @@ Record StepRules := {
   (* grads = self._compute_grads(<X_batch>, y_pred, grads) *)
   s_grads_x : Src
 }.
+(* how the epoch loop consumes the generator: `for .. in self._batchify(..)` advances it one batch per step (lazy);
+   `batches = list(self._batchify(..)); for .. in batches` exhausts it before the first step (eager) *)
+Inductive Iter := IterLazy | IterEager.
 Record FitRules := {
   (* for i in range(<e>):                                                  argument: self.max_iter *)
   f_epochs : Z -> Z;
+  (* for X_batch, affinity_batch in <self._batchify(..) | list(self._batchify(..))> *)
+  f_iter : Iter;
   (* self.n_iter_ = <e>                                                    argument: self.max_iter *)
   f_n_iter : Z -> Z;
   f_step : StepRules
@@ -173,6 +178,19 @@ Definition code_decorated (n : nat) (bs : option nat) (P : Z -> list nat)
                      let subset := map (fun i => nth i indices 0) (fst y) in
                      (d_recorded D subset, (d_rows D subset, snd y))))
              (code_batchify (length indices) bs P).
+
+(* the decoration records each batch's true indices on `_batchify.indices` WHEN THE GENERATOR YIELDS IT; the decorated
+   _compute_grads reads that attribute.  What it holds while step k of an epoch runs: the record of batch k if the
+   generator is advanced lazily, the record of the LAST batch if it was exhausted up front.
+   Result per step: (indices visible to _compute_grads, rows of the X_batch of that step) *)
+Definition visible_indices (it : Iter) (recs : list (list nat)) (k : nat) : list nat :=
+  match it with IterLazy => nth k recs [] | IterEager => last recs [] end.
+Definition code_decorated_visible (F : FitRules) (n : nat) (bs : option nat) (P : Z -> list nat)
+  : option (list (list nat * list nat)) :=
+  option_map (fun Y => map (fun k => (visible_indices (f_iter F) (map fst Y) k,
+                                      fst (snd (nth k Y ([], ([], ([], [])))))))
+                           (seq 0 (length Y)))
+             (code_decorated n bs P).
 
 (* ---- the training loop of fit / _run_path ---- *)
 (* (rows _infer sees, ((rows, columns) of the affinity the GEMINI sees, rows _compute_grads sees)) *)
@@ -252,4 +270,4 @@ Definition code_val_score (n : nat) (bs : Z) (g : list nat -> list nat -> list n
 Definition code_path_val_score (n : nat) (bs : option nat) (g : list nat -> list nat -> list nat -> T) : option T :=
   code_val_score n (v_path_bs V (Z.of_nat n) (option_map Z.of_nat bs)) g.
 End Val.
-(* EXTRACT: batches epoch decorated_epoch val_blocks cat_epoch eff_bs code_index_batches code_batchify code_decorated code_fit_trace code_n_iter code_path_epoch code_val_blocks code_val_score code_path_val_score *)
+(* EXTRACT: batches epoch decorated_epoch val_blocks cat_epoch eff_bs code_index_batches code_batchify code_decorated code_decorated_visible code_fit_trace code_n_iter code_path_epoch code_val_blocks code_val_score code_path_val_score *)
